@@ -1,7 +1,7 @@
 SPECIFICATION Spec
 CONSTANTS Heights = {0,1,2,3,4,5,6}
-          Tx = {1, 2, 3}
-          TxSets = {{}, {1}, {2}, {3}, {1, 2}, {1, 3}, {2, 3}, {1, 2, 3}}
+          Tx = {1, 2}
+          TxSets = {{}, {1}, {2}, {1, 2}}
           Maxes = {1, 2, 3}
           Mode = "mc"
 VIEW ViewMC
